@@ -463,13 +463,45 @@ func randScenePath(r *rand.Rand) latgeo.LPath {
 	return p
 }
 
-func sceneCfg() string {
-	return fmt.Sprintf("SPECIFICATION TSpec\nCONSTANTS N = %d\n K = 0\n NC = 0\n Mode = \"trace\"\n Num = 0\n What = \"bool\"\nCHECK_DEADLOCK FALSE\n", sceneN)
+func sceneCfg(n int) string {
+	return fmt.Sprintf("SPECIFICATION TSpec\nCONSTANTS N = %d\n K = 0\n NC = 0\n Mode = \"trace\"\n Num = 0\n What = \"bool\"\nCHECK_DEADLOCK FALSE\n", n)
+}
+
+// bandScene: many disjoint rectangles in separate y-bands with overlapping x-extents (many simultaneously active sweep
+// edges that enter and leave the status in interleaved order) and one enclosing rectangle; nothing degenerate.
+const bandN = 20
+
+func bandScene(r *rand.Rand) (latgeo.LPath, latgeo.LPath) {
+	var p latgeo.LPath
+	k := 6 + r.Intn(4)
+	for i := 0; i < k; i++ {
+		y0 := 2*i + 1
+		x0 := 1 + r.Intn(8)
+		x1 := x0 + 3 + r.Intn(19-x0-3)
+		rect := latgeo.LContour{{x0, y0}, {x1, y0}, {x1, y0 + 1}, {x0, y0 + 1}}
+		if r.Intn(2) == 0 {
+			rect = latgeo.LContour{rect[0], rect[3], rect[2], rect[1]}
+		}
+		p = append(p, rect)
+	}
+	q := latgeo.LPath{{{0, 0}, {bandN, 0}, {bandN, bandN}, {0, bandN}}}
+	if r.Intn(3) == 0 { // a band-crossing wedge instead of the enclosing rectangle
+		q = latgeo.LPath{{{0, 0}, {bandN, 3}, {2, bandN}}}
+	}
+	if r.Intn(2) == 0 {
+		return q, p
+	}
+	return p, q
 }
 
 func (d Driver) traces(c *core.Ctx) {
-	// sample points of the trace module (header line of BoolOps with N = sceneN)
-	hres := c.TLC(tlc.Opts{Module: "BoolOps", Config: fmt.Sprintf("SPECIFICATION Spec\nCONSTANTS N = %d\n K = 3\n NC = 1\n Mode = \"random\"\n Num = 1\n What = \"bool\"\nCHECK_DEADLOCK FALSE\n", sceneN), Seed: 1, Workers: 1}, true)
+	d.tracesN(c, sceneN, c.Pick(300, 6000), "scene", func(r *rand.Rand) (latgeo.LPath, latgeo.LPath) { return randScenePath(r), randScenePath(r) })
+	d.tracesN(c, bandN, c.Pick(24, 400), "bands", bandScene)
+}
+
+func (d Driver) tracesN(c *core.Ctx, latticeN, n int, space string, gen func(r *rand.Rand) (latgeo.LPath, latgeo.LPath)) {
+	// sample points of the trace module (header line of BoolOps with the same N)
+	hres := c.TLC(tlc.Opts{Module: "BoolOps", Config: fmt.Sprintf("SPECIFICATION Spec\nCONSTANTS N = %d\n K = 3\n NC = 1\n Mode = \"random\"\n Num = 1\n What = \"bool\"\nCHECK_DEADLOCK FALSE\n", latticeN), Seed: 1, Workers: 1}, true)
 	var hdr Line
 	for _, l := range hres.Lines {
 		var x Line
@@ -482,13 +514,13 @@ func (d Driver) traces(c *core.Ctx) {
 		return
 	}
 	pts := latgeo.SamplePts(hdr.Samples, hdr.S, latgeo.Identity)
-	n := c.Pick(300, 6000)
-	r := rand.New(rand.NewSource(c.Seed*104729 + 1))
+	r := rand.New(rand.NewSource(c.Seed*104729 + int64(latticeN)))
 	var evs []sceneEv
 	var buf bytes.Buffer
 	enc := json.NewEncoder(&buf)
 	for i := 0; i < n; i++ {
-		ev := sceneEv{P: randScenePath(r), Q: randScenePath(r), Obs: map[string][]int{}}
+		gp, gq := gen(r)
+		ev := sceneEv{P: gp, Q: gq, Obs: map[string][]int{}}
 		bad := false
 		for _, op := range ops {
 			var res *canvas.Path
@@ -524,7 +556,7 @@ func (d Driver) traces(c *core.Ctx) {
 	files := map[string][]byte{"trace_boolops.ndjson": buf.Bytes()}
 	rejected := 0
 	// one parallel pass: every event is judged; events that disagree come back with the spec's expectation
-	res := c.TLC(tlc.Opts{Module: "Trace_BoolOps", Files: files, Config: sceneCfg(), Timeout: 30 * time.Minute}, true)
+	res := c.TLC(tlc.Opts{Module: "Trace_BoolOps", Files: files, Config: sceneCfg(latticeN), Timeout: 30 * time.Minute}, true)
 	if res.OK && res.Distinct != int64(2*n) {
 		c.Broken(fmt.Sprintf("Trace_BoolOps judged %d states, expected %d", res.Distinct, 2*n))
 	}
@@ -534,7 +566,7 @@ func (d Driver) traces(c *core.Ctx) {
 			continue
 		}
 		rejected++
-		s := &Scenario{Kind: "bool", S: hdr.S, Samples: hdr.Samples, P: l.P, Q: l.Q, Emb: latgeo.Identity, Space: "scene", F: l.F,
+		s := &Scenario{Kind: "bool", S: hdr.S, Samples: hdr.Samples, P: l.P, Q: l.Q, Emb: latgeo.Identity, Space: space, F: l.F,
 			Exp: map[string][]int{"and": l.And, "or": l.Or, "xor": l.Xor, "not": l.Not, "div": l.Div}}
 		ms := exec(s, true)
 		if len(ms) == 0 {
@@ -544,8 +576,8 @@ func (d Driver) traces(c *core.Ctx) {
 		c.Report(s, ms)
 	}
 	c.Count(int64(5*n), 0, int64(n-rejected))
-	c.SetExtra("trace_scenes", n)
-	c.SetExtra("trace_scenes_rejected", rejected)
+	c.SetExtra("trace_"+space, n)
+	c.SetExtra("trace_"+space+"_rejected", rejected)
 	if len(evs) > 0 {
 		c.Sample(map[string]any{"recorded_scene": map[string]string{"p": evs[0].P.SVG(), "q": evs[0].Q.SVG()}})
 	}
